@@ -42,6 +42,7 @@ from .spec import (  # noqa: F401
     exists,
     floor,
     forall,
+    forall_ind,
     forall_real,
     idx_norm,
     is_int_obj,
@@ -50,6 +51,8 @@ from .spec import (  # noqa: F401
     lt_tol,
     pow2,
     py_slice_bounds,
+    seq_get,
+    seq_len,
     to_real,
 )
 
